@@ -6,6 +6,7 @@ MODULES = [
     "c02_compound",
     "c04_liftover",
     "c13_variants",
+    "c14_bed",
     "c15_tables",
     "c16_bins",
     "c18_features",
